@@ -327,9 +327,8 @@ def configs(ctx):
         add("versioned", 3, 1, ("commit-with", "raise-with", "commit"), "sync", 1, 2)
         add("btree", 3, 0, ("commit", "commit", "rollback"), "line", 1, 1)
     else:
-        for plan in (("commit", "commit", "commit"), ("commit", "rollback", "commit"),
-                     ("rollback", "commit-with", "raise-with")):
-            add("versioned", 3, 0, plan, "line", 1, 2)
+        add("versioned", 3, 0, ("commit", "commit", "commit"), "line", 0, 2)
+        add("versioned", 3, 0, ("commit", "rollback", "commit-with"), "line", 1, 2)
         for plan in (("commit", "commit"), ("rollback", "commit"), ("commit-with", "raise-with"), ("rollback", "rollback")):
             add("versioned", 2, 0, plan, "line", 2, 3)
         add("versioned", 2, 1, ("commit", "rollback"), "line", 1, 2)
@@ -337,12 +336,11 @@ def configs(ctx):
         add("versioned", 3, 1, ("commit", "commit", "rollback"), "line", 1, 1)
         add("versioned", 2, 2, ("commit", "commit"), "line", 1, 1)
         add("versioned", 4, 0, ("commit", "rollback", "commit", "commit"), "line", 0, 1)
-        add("versioned", 4, 0, ("commit", "rollback", "commit", "commit"), "sync", 1, 3)
-        add("versioned", 4, 1, ("commit", "commit", "rollback", "commit"), "sync", 1, 2)
-        add("versioned", 3, 2, ("commit", "commit", "commit"), "sync", 2, 2)
-        add("versioned", 5, 0, ("commit",) * 5, "sync", 0, 2)
+        add("versioned", 4, 0, ("commit", "rollback", "commit", "commit"), "sync", 1, 2)
+        add("versioned", 3, 1, ("commit-with", "raise-with", "commit"), "sync", 2, 2)
+        add("versioned", 5, 0, ("commit",) * 5, "sync", 0, 1)
         add("btree", 3, 1, ("commit", "commit", "rollback"), "line", 1, 1)
-        add("btree", 3, 0, ("commit", "commit", "commit"), "line", 1, 2)
+        add("btree", 3, 0, ("commit", "commit", "commit"), "line", 0, 2)
     return out
 
 
